@@ -176,7 +176,7 @@ pub fn run(ctx: &Ctx) -> Report {
     // (2) random larger geometries
     if ctx.want("random") {
         let mut r = ctx.rng("c03-rand");
-        for i in 0..ctx.count(3_000, 60_000) {
+        for i in 0..ctx.count(15_000, 60_000) {
             let p = match r.below(4) { 0 => r.range(1, 64) as usize, 1 => 16384, 2 => r.range(1000, 40000) as usize, _ => r.range(2, 600) as usize };
             let npieces = r.range(1, 9) as usize;
             let total = (npieces - 1) * p + r.range(1, p as u64) as usize;
@@ -251,7 +251,7 @@ pub fn run_c04(ctx: &Ctx) -> Report {
     let rt = rt();
     let mut r = ctx.rng("c04");
     rep.need("hostile_cases_judged", 300);
-    let n = ctx.count(3_000, 30_000);
+    let n = ctx.count(12_000, 60_000);
     for i in 0..n {
         // sandbox: R/a/b/c/d/e/cwd, canaries everywhere outside cwd
         let root = ctx.scratch.join(format!("R{}", i));
